@@ -141,7 +141,7 @@ make_key_lemma = Contract(
         "op": {"left": _VREF, "right": _VREF, "output_value": _VREF, "conditions": ty.TConcrete([]),
                "copy_count_from_input": ty.Bool, "op": ty.Str, "test_op": ty.Str, "output_type": ty.Str},
     },
-    properties=("C10", "C02"),
+    properties=("C10", "C02", "C01", "C12"),
     min_obligations=8,
     note="multi-condition deciders and BundleRef operands (keyed by repr(), i.e. by identity) are outside this lemma",
 )
@@ -227,4 +227,4 @@ for _ks in [(k,) for k in _KINDS] + [("IRConst", "IRArith"), ("IRMemRead", "IREn
         ensures=[("a constant is marked dead only if no live operation reads it", _mark_dead_post)],
         uses={"ConstantPropagationOptimizer._references_node": "inline", "fn:_operands": "inline", "fn:_map_operands": "inline", "fn:collect": "inline"},
         dynamic_types={"self": {"dead_nodes": ty.TSet(ty.Str)}},
-        properties=("C10",), min_obligations=1, no_replay=True, note=f"operation list of kinds {'+'.join(_ks)} (bounded list length {len(_ks)})"))
+        properties=("C10", "C01"), min_obligations=1, no_replay=True, note=f"operation list of kinds {'+'.join(_ks)} (bounded list length {len(_ks)})"))
